@@ -80,22 +80,23 @@ theorem insertOrder_single (n q p : Nat) (hp : p ≤ n) :
   simp [insertOrder, insertCol, insPlan, insOfPositions, normIns, InsPlan.op, insertPerm, hp, bind, Except.bind,
     pure, Except.pure, List.mapM_cons, List.mapM_nil]
 
-/-- a 0-d ndarray position along a LEADING axis (taxa axis 0 of the unphased / trait / breeding-value matrices): numpy's
-    scalar rule is then the plain block insert, so labels stay attached — the defect D17b needs a non-leading axis -/
+/-- (pre-repair form) a 0-d ndarray position along a LEADING axis (taxa axis 0 of the unphased / trait / breeding-value
+    matrices): numpy's scalar rule is then the plain block insert, so labels stayed attached — the defect D17b needed a
+    non-leading axis -/
 theorem insertZeroDim_leading_attached (sch : Schema) (hwf : sch.WF) (k : Kind) (hax : sch.axes k = [0])
     (mutating : Bool) (i : Int) (v : Operand α lab) (s s' : St α lab) (hd : sch.pureDropsOther = false)
     (hcs : consistentOK sch s = true) (hcv : consistentOK sch (operandState s k v) = true)
     (hlen : (s.bundle k).cols.length = v.cols.length)
-    (h : (if mutating then incorpZeroDimK sch k i v s else insertZeroDimK sch k i v s) = .ok s')
+    (h : (if mutating then incorpZeroDimKPrerepair sch k i v s else insertZeroDimKPrerepair sch k i v s) = .ok s')
     (c : LCell α lab) (hc : IsLCell sch s' c) : IsLCell sch s c ∨ IsLCell sch (operandState s k v) c := by
   have core : ∃ t, insertCoreRaw sch k (.int i) v s = .ok t ∧ s'.mat = t.mat ∧
       ∀ kk, (s'.bundle kk).cols = (t.bundle kk).cols := by
     cases mutating with
     | true =>
-      simp only [if_true, incorpZeroDimK] at h
+      simp only [if_true, incorpZeroDimKPrerepair] at h
       exact ⟨s', h, rfl, fun _ => rfl⟩
     | false =>
-      simp only [Bool.false_eq_true, if_false, insertZeroDimK, bind, Except.bind] at h
+      simp only [Bool.false_eq_true, if_false, insertZeroDimKPrerepair, bind, Except.bind] at h
       split at h
       · cases h
       · rename_i t ht
